@@ -33,6 +33,11 @@ theorem declared_isolation :
     Generated.seedOnly = true ∧ Generated.rngFromSeed = true :=
   ⟨rfl, rfl, rfl, rfl⟩
 
+/-- the replicas are combined with `max` (regenerated from `analyse_state`): by `C10.reduce_any_tree`
+its result is the last maximal element of the index-ordered results for EVERY way rayon splits and
+recombines the range — also when different replicas tie exactly -/
+theorem declared_reduction : Generated.cliReduction = "max" := by decide
+
 /-- with a seed set, `build` hands exactly that seed to the optimiser (no entropy path) -/
 theorem seed_only (b : Builder ℝ) (s : Nat) (hs : b.seed = some s) :
     ∃ c, b.build = .ok c ∧ c.seed = s := by
